@@ -24,3 +24,39 @@ def final_stores(repo, fn=None):
         for ctx, finals in per.items():
             rows.append((ctx, conds, finals))
     return fn, rows
+
+
+def forced(atom, conds):
+    """value the path conditions force on the boolean atom (text): True / False / None (not determined on this path).
+    Compound tests are decomposed: `A and B` true forces both, `A or B` false forces both false, `not A` flips."""
+    import ast as _ast
+
+    def walk_(node, val, out):
+        txt = _ast.unparse(node)
+        if txt == atom:
+            out.append(val)
+            return
+        if isinstance(node, _ast.UnaryOp) and isinstance(node.op, _ast.Not):
+            if val is not None:
+                walk_(node.operand, not val, out)
+            return
+        if isinstance(node, _ast.BoolOp):
+            if isinstance(node.op, _ast.And) and val is True:
+                for v in node.values:
+                    walk_(v, True, out)
+            elif isinstance(node.op, _ast.Or) and val is False:
+                for v in node.values:
+                    walk_(v, False, out)
+            elif len(node.values) == 1:
+                walk_(node.values[0], val, out)
+    res = []
+    for k, v in conds.items():
+        if atom not in k:
+            continue
+        try:
+            walk_(_ast.parse(k, mode="eval").body, bool(v), res)
+        except SyntaxError:
+            continue
+    if True in res and False in res:
+        return None
+    return res[0] if res else None
